@@ -28,11 +28,19 @@ def env_offline():
 def build_harness(verbose=False, pkg="vh"):
     """Incremental offline build of the harness (path deps on /repo => always the working tree)."""
     os.makedirs(TARGET, exist_ok=True)
+    cwd = HARNESS
+    if pkg == "vsy":
+        # separate workspace on a copy of /repo/varlink regenerated from the working tree (scheduled std::sync primitives)
+        cwd = os.path.join(VERIF, "harness_sync")
+        g = subprocess.run([sys.executable, os.path.join(VERIF, "tools", "gen_sched_copy.py")], stdout=subprocess.PIPE, stderr=subprocess.STDOUT, text=True)
+        if g.returncode != 0:
+            log(g.stdout[-3000:])
+            raise Machinery("generation of the scheduled copy of /repo/varlink failed")
     lock = open(os.path.join(TARGET, ".check.lock"), "w")
     fcntl.flock(lock, fcntl.LOCK_EX)
     try:
         t0 = time.time()
-        p = subprocess.run(["cargo", "build", "--release", "--offline", "-p", pkg], cwd=HARNESS, env=env_offline(),
+        p = subprocess.run(["cargo", "build", "--release", "--offline", "-p", pkg], cwd=cwd, env=env_offline(),
                            stdout=subprocess.PIPE, stderr=subprocess.STDOUT, text=True)
         if p.returncode != 0:
             log(p.stdout[-6000:])
@@ -217,7 +225,7 @@ def main(argv):
     try:
         if argv[0] == "--setup":
             build_harness(verbose=True)
-            for extra in ("vts", "vcert", "vproc"):
+            for extra in ("vts", "vcert", "vproc", "vsy"):
                 try:
                     build_harness(verbose=True, pkg=extra)
                 except Machinery as e:
@@ -247,7 +255,18 @@ def main(argv):
             seed = 0
         t0 = time.time()
         pk = plan.get("pkg", "vh")
+        unavailable = {}
         for one in ([pk] if isinstance(pk, str) else pk):
+            if one == "vsy":
+                # the copy with redirected std::sync imports may not compile for a tree that uses a primitive the
+                # scheduled shims do not offer: that part is then skipped (and said so), it is neither a verdict nor
+                # a reason to lose the other parts' verdicts
+                try:
+                    build_harness(pkg=one)
+                except Machinery as e:
+                    unavailable["mc_sync"] = str(e)
+                    log("warning: sync-granularity part not available for this tree: %s" % e)
+                continue
             build_harness(pkg=one)
         if plan.get("needs_repo_bins"):
             build_repo_bins(pkgs=plan["needs_repo_bins"])
@@ -268,6 +287,8 @@ def main(argv):
             parts_res = []
             for part in plan["parts"]:
                 if tier not in part.get("tiers", ("quick", "thorough")):
+                    continue
+                if part["bin"] in unavailable:
                     continue
                 parts_res.append((part, run_part(prop, part, tier, seed, scratch)))
         finally:
